@@ -24,6 +24,8 @@ pub enum Case {
     Fixture(usize),
     Hist(History),
     Prog(crate::props::c04::Case),
+    /// definition order of one base type (0) and independent dependants of it (1..)
+    TypeDefs(Vec<u8>),
 }
 
 fn render<E: Diagnostic + Send + Sync + 'static>(e: E, src: &str) -> String {
@@ -106,6 +108,34 @@ pub fn observe(c: &Case) -> String {
             let (text, pkgs) = crate::props::c04::document_and_packages(p);
             observe_text(&text, &pkgs)
         }
+        Case::TypeDefs(order) => {
+            use wac_types::{DefinedType, PrimitiveType, Type, ValueType};
+            let mut g = wac_graph::CompositionGraph::new();
+            let base = g.types_mut().add_defined_type(DefinedType::Alias(ValueType::Primitive(PrimitiveType::U8)));
+            let mut tys = vec![base];
+            for k in 1..6u32 {
+                let d = match k {
+                    1 => DefinedType::List(ValueType::Defined(base)),
+                    2 => DefinedType::Option(ValueType::Defined(base)),
+                    3 => DefinedType::Tuple(vec![ValueType::Defined(base), ValueType::Defined(base)]),
+                    4 => DefinedType::Result { ok: Some(ValueType::Defined(base)), err: None },
+                    _ => DefinedType::Result { ok: None, err: Some(ValueType::Defined(base)) },
+                };
+                tys.push(g.types_mut().add_defined_type(d));
+            }
+            let mut seen = vec![];
+            for o in order {
+                let i = *o as usize % tys.len();
+                if seen.contains(&i) {
+                    continue;
+                }
+                seen.push(i);
+                if g.define_type(format!("t{i}"), Type::Value(ValueType::Defined(tys[i]))).is_err() {
+                    return "define_type-error".into();
+                }
+            }
+            observe_graph(&g)
+        }
     }
 }
 
@@ -165,6 +195,7 @@ fn nontrivial(c: &Case) -> bool {
         Case::Fixture(_) => true,
         Case::Hist(h) => h.ops.len() >= 4,
         Case::Prog(p) => p.choices.len() >= 10,
+        Case::TypeDefs(o) => o.len() >= 3,
     }
 }
 
@@ -176,6 +207,7 @@ fn label(c: &Case) -> &'static str {
         Case::Fixture(_) => "repo-fixture",
         Case::Hist(_) => "api-history-with-type-definitions",
         Case::Prog(_) => "semantic-program",
+        Case::TypeDefs(_) => "type-definition-order",
     }
 }
 
@@ -186,7 +218,7 @@ pub fn run(tier: Tier, seed: u64, replay: Option<&std::path::Path>) -> i32 {
         tier,
         seed,
         "exploration",
-        "cases: graph histories over generated libraries (C01 generator), API histories on the tiny universe that define base types after their dependants (C06 generator), grammar-generated documents, programs of C04's semantic generator with their generated libraries (resolvable documents with spreads, implicit imports, nested instantiations), every repository fixture with its packages, and hand-written documents with several unknown `include ... with` names / many same-rank imports. Each case is observed (Debug of the graph, encode bytes in both dependency modes, serialised tree, printed text, discovered keys, rendered diagnostics) twice in one process and on a clone, and in K fresh worker processes (K=4 quick, 12 thorough; each has its own hash seeds); all SHA-256 digests must be equal. Non-trivial = histories with >= 3 ops, documents with >= 2 statements, fixtures, hand-written cases. Distinct by JSON hash.",
+        "cases: graph histories over generated libraries (C01 generator), API histories on the tiny universe that define base types after their dependants (C06 generator), definition orders of one base type and five independent dependants of it, grammar-generated documents, programs of C04's semantic generator with their generated libraries (resolvable documents with spreads, implicit imports, nested instantiations), every repository fixture with its packages, and hand-written documents with several unknown `include ... with` names / many same-rank imports. Each case is observed (Debug of the graph, encode bytes in both dependency modes, serialised tree, printed text, discovered keys, rendered diagnostics) twice in one process and on a clone, and in K fresh worker processes (K=4 quick, 12 thorough; each has its own hash seeds); all SHA-256 digests must be equal. Non-trivial = histories with >= 3 ops, documents with >= 2 statements, fixtures, hand-written cases. Distinct by JSON hash.",
     );
     run.assume("a sample of per-process hash seeds, not all of them");
     if let Some(p) = replay {
@@ -229,6 +261,16 @@ pub fn run(tier: Tier, seed: u64, replay: Option<&std::path::Path>) -> i32 {
     for _ in 0..tier.pick(2000, 30_000) {
         if let Ok(t) = hs.new_tree(&mut runner) {
             cases.push(Case::Hist(t.current()));
+        }
+    }
+    // a base type defined after several independent dependants of it, in every position
+    for perm in [[1u8, 2, 0, 3, 4, 5], [5, 4, 3, 2, 1, 0], [1, 2, 3, 4, 5, 0], [0, 1, 2, 3, 4, 5], [3, 1, 0, 2, 5, 4], [2, 5, 1, 0, 4, 3]] {
+        cases.push(Case::TypeDefs(perm.to_vec()));
+    }
+    let ts = proptest::collection::vec(0u8..6, 2..10);
+    for _ in 0..tier.pick(200, 2_000) {
+        if let Ok(t) = ts.new_tree(&mut runner) {
+            cases.push(Case::TypeDefs(t.current()));
         }
     }
     let ps = crate::props::c04::case_strategy();
